@@ -13,6 +13,8 @@
 # limitations under the License.
 
 
+import jax.tree_util as jtu
+
 from genjax._src.core.compiler.interpreters.incremental import (
     Diff,
     NoChange,
@@ -284,8 +286,15 @@ class Switch(Generic[R], GenerativeFunction[R]):
         rets = multi_switch(new_idx, fs, f_args)
 
         subtraces = list(t[0] for t in rets)
+        retdiffs = list(rd for _, _, rd, _ in rets)
+        if len({jtu.tree_structure(Diff.tree_tangent(rd)) for rd in retdiffs}) > 1:
+            # Change tags are part of the pytree structure, so branches that tag
+            # their return values differently cannot be selected between: fall
+            # back to the (always sound) UnknownChange for all of them.
+            retdiffs = list(Diff.unknown_change(rd) for rd in retdiffs)
         score, weight, retdiff = tree_choose(
-            new_idx, list((tr.get_score(), w, rd) for tr, w, rd, _ in rets)
+            new_idx,
+            list((t[0].get_score(), t[1], rd) for t, rd in zip(rets, retdiffs)),
         )
         retval: R = Diff.tree_primal(retdiff)
 
